@@ -166,7 +166,9 @@ Definition handover_as_modelled : bool :=
   strs_eqb src_handover_TransitionDb
     ["Etxs:nil"; "Etxs:nil"; "Etxs:nil"; "Etxs:nil"; "Etxs:nil";
      "etxs=make(len(ETXCache))"; "copy(etxs,ETXCache)"; "ETXCache=make(0)"; "Etxs:etxs"] &&
-  strs_eqb src_handover_applyTransaction ["Reset"; "ApplyMessage"; "Failed"; "receipt.OutboundEtxs=result.Etxs"] &&
+  (* "@else(Failed)": the hand-over to the receipt sits in the success branch of "if result.Failed()" and under no other condition
+     (the dump in TransitionDb is unconditional: no "@" suffix) *)
+  strs_eqb src_handover_applyTransaction ["Reset"; "ApplyMessage"; "Failed"; "receipt.OutboundEtxs=result.Etxs@else(Failed)"] &&
   strs_eqb src_handover_Reset [].
 Lemma handover_ok : handover_as_modelled = true. Proof. vm_compute. reflexivity. Qed.
 
